@@ -1,5 +1,6 @@
 import PsModel.Util.Sexp
 import PsModel.Model.C01Rec
+import PsModel.Spec.C01
 import PsModel.Model.C01Comp
 /-! line-protocol front end of the C01 model: `C01 (run (tape …) (stmts …))` → `model=<log>|<res> spec=<log>|<res>` -/
 namespace PsModel.C01
@@ -42,6 +43,19 @@ partial def expr? : Sexp → Option Expr
         pure (FPart.fmt (← expr? e) c (← optE? expr? spec))
       | _ => none))
   | .list [.atom "named", .atom x, e] => do pure (.named x (← expr? e))
+  | .list [.atom "comp", k, elt, .list gens] => do pure (.comp ((← k.nat?) == 2) (← expr? elt) (← gens.mapM gen?))
+  | .list [.atom "dcomp", k, v, .list gens] => do pure (.dictcomp (← expr? k) (← expr? v) (← gens.mapM gen?))
+  | _ => none
+partial def gen? : Sexp → Option Gen
+  | .list [.atom "gen", t, it, .list ifs] => do pure (.mk (← target? t) (← expr? it) (← ifs.mapM expr?))
+  | _ => none
+partial def target? : Sexp → Option Target
+  | .list [.atom "n", .atom x] => some (.name x)
+  | .list [.atom "sub", v, i] => do pure (.sub (← expr? v) (← expr? i))
+  | .list [.atom "attr", v, .atom a] => do pure (.attr (← expr? v) a)
+  | .list [.atom "tup", isl, .list before, star, .list after] => do
+    let st ← match star with | .atom "-" => some none | .atom x => some (some x) | _ => none
+    pure (.tup (← isl.bool?) (← before.mapM target?) st (← after.mapM target?))
   | _ => none
 partial def elt? : Sexp → Option Elt
   | .list [.atom "p", e] => (expr? e).map .plain
@@ -52,15 +66,6 @@ partial def kw? : Sexp → Option Kw
   | .list [.atom "ss", e] => (expr? e).map .splat
   | _ => none
 end
-
-partial def target? : Sexp → Option Target
-  | .list [.atom "n", .atom x] => some (.name x)
-  | .list [.atom "sub", v, i] => do pure (.sub (← expr? v) (← expr? i))
-  | .list [.atom "attr", v, .atom a] => do pure (.attr (← expr? v) a)
-  | .list [.atom "tup", isl, .list before, star, .list after] => do
-    let st ← match star with | .atom "-" => some none | .atom x => some (some x) | _ => none
-    pure (.tup (← isl.bool?) (← before.mapM target?) st (← after.mapM target?))
-  | _ => none
 
 def stmt? : Sexp → Option Stmt
   | .list [.atom "expr", e] => (expr? e).map .expr
@@ -114,7 +119,8 @@ def handle (x : Sexp) : String :=
     | some t, some p =>
       let w : RW := { tape := t }
       let salt := t.length
-      s!"model={showRun (run Current.cfg (recorder salt) p [] w)} spec={showRun (run Cfg.python (recorder salt) p [] w)}"
+      -- `conf`: is the program inside the fragment on which today's handlers provably agree with the reference?
+      s!"model={showRun (run Current.cfg (recorder salt) p [] w)} spec={showRun (run Cfg.python (recorder salt) p [] w)} conf={ConfProg Current.cfg p}"
     | _, _ => "err parse"
   | _ => "err bad-command"
 
